@@ -46,7 +46,9 @@ def _handler(case):
     bus = Bus("B1")
     rng = Rng()
     viols = []
-    park = EVPark("EV1", bus, num_ev_dist=Table(x=np.arange(24), y=np.array(tab, dtype=object)),
+    # the table may list its hours in any order (c["order"]: the permutation of 0..23 in which the rows are written)
+    order = c.get("order") or list(range(24))
+    park = EVPark("EV1", bus, num_ev_dist=Table(x=np.array(order), y=np.array([tab[h] for h in order], dtype=object)),
                   inj_p_max=F(c["pMax"]), inj_q_max=F(c["qMax"]), E_max=F(c["eMax"]), SOC_min=F(c["socMin"]),
                   SOC_max=F(c["socMax"]), n_battery=F(c["eta"]), v2g_flag=c["v2g"])
     park.ps_random = rng
@@ -122,7 +124,15 @@ def gen(rng, n):
         if rng.random() < 0.1:
             table = [rng.choice([F(0), F(1, 4), F(2, 5)]) for _ in range(24)]
         smin = rng.choice([F(1, 5), F(0), F(1, 10)])
-        cfg = {"table": [str(x) for x in table], "pMax": str(rng.choice([F(9, 125), F(1, 10), F(1, 2)])), "qMax": str(rng.choice([F(9, 125), F(0), F(1, 10)])),
+        order = list(range(24))
+        r_ = rng.random()
+        if r_ < 0.25:
+            rng.shuffle(order)
+        elif r_ < 0.4:
+            order = order[6:] + order[:6]          # a day written from 06:00
+        elif r_ < 0.5:
+            order.reverse()
+        cfg = {"order": order, "table": [str(x) for x in table], "pMax": str(rng.choice([F(9, 125), F(1, 10), F(1, 2)])), "qMax": str(rng.choice([F(9, 125), F(0), F(1, 10)])),
                "eMax": str(rng.choice([F(7, 10), F(1), F(1, 4)])), "socMin": str(smin), "socMax": str(rng.choice([F(9, 10), F(1), F(1, 2)])),
                "eta": str(rng.choice([F(19, 20), F(1), F(9, 10)])), "v2g": rng.random() < 0.5}
         steps = []
@@ -146,7 +156,7 @@ def gen(rng, n):
 def run(res):
     rng = random.Random(res.seed * 2221 + 41)
     n = 150 if res.tier == "quick" else 2500
-    res.rule = ("availability tables with entries 0..8 incl. x.5 values (half-to-even rounding) and tiny parks (all entries < 0.5), both V2G settings, "
+    res.rule = ("availability tables (rows in ascending, rotated, reversed or shuffled hour order) with entries 0..8 incl. x.5 values (half-to-even rounding) and tiny parks (all entries < 0.5), both V2G settings, "
                 "balances of both signs incl. -INF, disturbances starting at every hour; update/log sequences; "
                 "non-trivial = distinct set of (first, park non-empty, surplus, discharging, charging, interruption states) per sequence")
     run_cases(res, gen(rng, n), handler)
